@@ -167,7 +167,7 @@ def _run(orc, meas, skipped, idx, it, r, progs, mod, k):
                 fp = rnd.randrange(ne)
                 for _ in range(it.get("ninputs", 2)):
                     try:
-                        fm, xp, xm, match = s5.interior_pair(prog, rnd, fp)
+                        fm, xp, xm, match = s5.interior_pair(prog, rnd, fp, "pythag" if any(pt.geos for pt in prog.parts) else "affine")
                     except OutOfModel as e:
                         skipped.append({"item": idx, "why": f"out of model: {e}"})
                         continue
@@ -187,6 +187,8 @@ def _run(orc, meas, skipped, idx, it, r, progs, mod, k):
             else:
                 xs = []
                 gk = gkind
+                if any(pt.geos for pt in prog.parts) and gkind == "affine":
+                    gk = "pythag"
                 if gkind == "nonaffine" and prog.itype == "cell" and any(
                         pt.nderiv >= 2 or (pt.nderiv >= 1 and any(s_["map"] != "identity" for sp in prog.spaces.values() for s_ in sp.subs))
                         for pt in prog.parts):
